@@ -241,6 +241,33 @@ def boundary_float_texts(seed, quick):
     add("0x1p-1074", "0x1p-1075", "0x1.8p-1075", "0x1.0000000000001p-1075", "0x0.0000000000001p-1022", "0x0.00000000000008p-1022",
         "0x0.00000000000018p-1022", "0x0.fffffffffffff8p-1022", "0x1.fffffffffffffp1023", "0x1.fffffffffffff8p1023", "0x.8p1025", "-0x1p1024",
         "-0x1.fffffffffffff8p1023", "-0x0p0", "0x0p0", "+0x1P+0001")
+    # exponent fields of 10..45 digits: accumulators that wrap (2^63, 2^64 and their multiples, plus or minus a
+    # little, land on ordinary exponents if the scanner forgets to saturate), zero-padded ones that must not
+    for base in (1 << 31, 1 << 32, 1 << 63, 1 << 64, 3 << 63, 5 << 64, 10 ** 19, 10 ** 20, 10 ** 30, 10 ** 44):
+        for dlt in (0, 1, 5, 22, 35, 308, -1, -5, -35, -300):
+            e = base + dlt
+            for m in ("1", "1.5", "0x1", "0x1.8"):
+                pe = "p" if m.startswith("0x") else "e"
+                add("%s%s%d" % (m, pe, e), "%s%s-%d" % (m, pe, e))
+    for z in (10, 19, 20, 21, 40):
+        add("1e" + "0" * z + "5", "1e-" + "0" * z + "5", "0x1p" + "0" * z + "5", "1e+" + "9" * z, "1e-" + "9" * z, "0x1p-" + "9" * z)
+    # hex mantissas of 14..17 digits (57..68 bits): every shifted-out bit is sticky.  The kept 53 bits end in
+    # 0 (even), the next bit is 1 (looks like a tie) and some lower bit other than the last is set.
+    for nd, low in ((14, 3), (15, 7), (16, 11), (17, 15)):
+        for i in range(6 if quick else 40):
+            m53 = (1 << 52) | (rnd.getrandbits(51) << 1)
+            r = rnd.randrange(1, 1 << (low - 2)) << 1 if low > 3 else 2
+            M = (m53 << low) | (1 << (low - 1)) | r
+            hx = "%x" % M
+            ex = rnd.choice((0, -23, 7, -1060, 960))
+            pt = rnd.randrange(1, len(hx))
+            add("0x%sp%d" % (hx, ex), "0x%s.%sp%d" % (hx[:pt], hx[pt:], ex), "0X%sP%d" % (hx.upper(), ex - 4))
+            add("0x%xp%d" % (M - r, ex), "0x%xp%d" % (M - r + 1, ex), "0x%xp%d" % (M - r - 1, ex))
+    for nd in range(1, 25):
+        for i in range(2 if quick else 12):
+            hx = "".join(rnd.choice("0123456789abcdef") for _ in range(nd)).lstrip("0") or "f"
+            pt = rnd.randrange(0, len(hx) + 1)
+            add("0x%s.%sp%d" % (hx[:pt], hx[pt:], rnd.choice((0, -23, 30, -1050, 1000))))
     # ---- seeded families: halfway points between adjacent doubles, shortest representations, hex
     n = 120 if quick else 1000
     for i in range(n):
